@@ -4,6 +4,9 @@ from checks import common, attempt_driver
 
 def body(chk):
     attempt_driver.run(chk, 'C09')
+    # across the scheduler: every started attempt reaches its end (after hook, World hand-over) also when fail-fast trips
+    from checks import sched_worlds
+    sched_worlds.run(chk, 'C09', selected=lambda n, w: w.fail_fast)
 
 
 if __name__ == '__main__':
